@@ -360,3 +360,118 @@ Definition chk_iflow (c : iflow_case) : bool :=
   let '(_, _, _, _, _, _, _, _, _, obs, obs_q, obs_r) := c in
   let '(o, q, r) := iflow_model c in
   outcome_eqb o obs && opt_pk_eqb q obs_q && opt_pk_eqb r obs_r.
+
+(* ---------------------------------------------------------------- extension parameters, and whether the hooks RUN
+   The add-on is a pair of post-parse hooks.  Endpoint.do_post_parse_request:
+        for meth in self.post_parse_request:
+            if isinstance(request, self.error_cls): break
+            request = meth(request, client_id, context=_context, **kwargs)
+   The loop stops on the CLASS of the message (a hook answered with an error message / raised), never on what members
+   the message has: a request is a request whatever parameters it carries - one called `error`, `error_description`,
+   `response_args`, `authenticated`, `__verified_request` ... included.  pmsg is the message with its class;
+   the hooks read the parameters they are about BY NAME from the whole request (every member the wire carried). *)
+Inductive pmsg :=
+| PReq (r : rparams)        (* an instance of the endpoint's request class, with every member it holds *)
+| PErr (n : N)              (* an instance of an error class (refusal tag n) *)
+| PRaise (e : exc).         (* the hook raised *)
+Definition phook : Type := rparams -> pmsg.
+Fixpoint post_parse (hs : list phook) (m : pmsg) : pmsg :=
+  match hs with
+  | [] => m
+  | h :: t => match m with PReq r => post_parse t (h r) | _ => m end
+  end.
+
+Module PkceKeys2.
+  Import Coq.Strings.String.
+  Local Open Scope string_scope.
+  Definition k_cv : pystr := PS "code_verifier".
+End PkceKeys2.
+Export PkceKeys2.
+
+(* request[k] as text (None: `k not in request`) *)
+Definition sget (k : pystr) (r : rparams) : option pystr := option_map ser (assoc k r).
+
+(* the members a PKCE pair / the PKCE part of a token request contributes to a message *)
+Definition pk_members (p : pk) : rparams :=
+  (match fst p with Some c => [(k_cc, PvS c)] | None => [] end)
+  ++ (match snd p with Some m => [(k_ccm, PvS m)] | None => [] end).
+Definition tk_members (cv tccm : option pystr) : rparams :=
+  (match cv with Some v => [(k_cv, PvS v)] | None => [] end)
+  ++ (match tccm with Some m => [(k_ccm, PvS m)] | None => [] end).
+
+(* post_authn_parse as a hook on the whole request; `request["code_challenge_method"] = ...` is the new first binding
+   (assoc reads the first binding of a name) *)
+Definition authn_hook (cf : pkce_conf) (ce : option bool) : phook := fun r =>
+  match authn_leg cf ce (sget k_cc r) (sget k_ccm r) with
+  | Ok st => PReq ((k_ccm, PvS (snd st)) :: r)
+  | Err (Refused n) => PErr n
+  | Err e => PRaise e
+  | Unmodelled => PRaise TypeError
+  end.
+
+(* what the grant records of a parsed authorization request with members r *)
+Definition authz_leg_x (cf : pkce_conf) (ce : option bool) (r : rparams) : res (option pystr * pystr) :=
+  match post_parse [authn_hook cf ce] (PReq r) with
+  | PReq r' => match sget k_ccm r' with Some m => Ok (norm (sget k_cc r'), m) | None => Unmodelled end
+  | PErr n => Err (Refused n)
+  | PRaise e => Err e
+  end.
+
+(* post_token_parse as a hook on the whole token request *)
+Definition token_hook (HB : N -> pystr -> pystr) (st : option pystr * pystr) : phook := fun r =>
+  match token_leg HB st (sget k_cv r) (sget k_ccm r) with
+  | Ok _ => PReq r
+  | Err (Refused n) => PErr n
+  | Err e => PRaise e
+  | Unmodelled => PRaise TypeError
+  end.
+
+(* a flow whose authorization request (any transport) carried the extension parameters ax next to the assembled PKCE
+   pair, and whose token request carried tx next to code_verifier / code_challenge_method *)
+Definition flow_x (HB : N -> pystr -> pystr) (cf : pkce_conf) (ce : option bool) (d : delivery)
+           (ax tx : rparams) (cv tccm : option pystr) : outcome :=
+  match authz_leg_x cf ce (ax ++ pk_members (assembled d)) with
+  | Ok st =>
+      match post_parse [token_hook HB st] (PReq (tx ++ tk_members cv tccm)) with
+      | PReq _ => Tokens
+      | PErr n => TkRefused n
+      | PRaise e => TkRaised e
+      end
+  | Err (Refused n) => AzRefused n
+  | _ => AzRefused 0
+  end.
+
+(* the interactive variant: the extension parameters travel through the page's query like every other parameter *)
+Definition flow_ix (HB : N -> pystr -> pystr) (cf : pkce_conf) (ce : option bool) (d : delivery)
+           (lists : list pystr) (others ax tx : rparams) (cv tccm : option pystr) : outcome :=
+  flow_i HB cf ce d lists (others ++ ax) (sget k_cv (tx ++ tk_members cv tccm)) (sget k_ccm (tx ++ tk_members cv tccm)).
+
+(* one flow with extension parameters:
+   (configured methods, global essential, per-client flag, delivery, extension parameters of the authorization request,
+    extension parameters of the token request, code_verifier, token-request code_challenge_method, hash table,
+    observed outcome, observed pair of the grant's stored authorization request when a code was issued) *)
+Definition xflow_case : Type :=
+  list pystr * bool * option bool * delivery * rparams * rparams * option pystr * option pystr * hb_tab * outcome
+  * option (option pystr * pystr).
+Definition xflow_model (c : xflow_case) : outcome * option (option pystr * pystr) :=
+  let '(ms, g, ce, d, ax, tx, cv, tccm, tab, _, _) := c in
+  (flow_x (hb_lookup tab) (mk_pkce_conf ms g) ce d ax tx cv tccm,
+   match authz_leg_x (mk_pkce_conf ms g) ce (ax ++ pk_members (assembled d)) with Ok st => Some st | _ => None end).
+Definition chk_xflow (c : xflow_case) : bool :=
+  let '(_, _, _, _, _, _, _, _, _, obs, obs_r) := c in
+  let (o, r) := xflow_model c in
+  outcome_eqb o obs
+  && match r, obs_r with
+     | Some (c1, m1), Some (c2, m2) => opt_str_eqb c1 c2 && str_eqb m1 m2
+     | None, None => true
+     | _, _ => false
+     end.
+
+(* one interactive flow with extension parameters: those of the authorization request are among `others` of the
+   iflow_case (they are members of the request the page's query is written from), tx are those of the token request *)
+Definition xiflow_case : Type := rparams * iflow_case.
+Definition xiflow_inner (c : xiflow_case) : iflow_case :=
+  let '(tx, (ms, g, ce, d, lists, others, cv, tccm, tab, o, q, r)) := c in
+  (ms, g, ce, d, lists, others, sget k_cv (tx ++ tk_members cv tccm), sget k_ccm (tx ++ tk_members cv tccm), tab, o, q, r).
+Definition xiflow_model (c : xiflow_case) := iflow_model (xiflow_inner c).
+Definition chk_xiflow (c : xiflow_case) : bool := chk_iflow (xiflow_inner c).
